@@ -10,6 +10,12 @@ CHECKS = {
     "C01": dict(spec="RequestWait", ref="DESIGN.md §4 C01",
                 text="TLC explores RequestWait exhaustively (1 caller, 3 arrivals of 6 kinds, poll/deadline ties) and every clause holds in the model; the environment schedules of the generation instance plus seeded random schedules are executed against the real send_message under a virtual clock and every recorded trace is validated by TLC against RequestWaitTrace (implementation-shaped spec, then total observer) with all clauses evaluated on the observed behaviour.",
                 note="Trusted: TLC, the virtual-time event loop, the recording write stream; payload/params equality is compared by the driver and reaches TLC as a flag. Bounds: model constants; random schedules up to 12 arrivals on the 10 ms grid."),
+    "C03": dict(spec="Handshake", ref="DESIGN.md §4 C03",
+                text="Handshake models send_initialize step by step (propose, answer, decide, send initialized, return + version tracking); TLC explores all 325 ordered supported lists over 3 real + 2 invented versions x 7 preferences x tracked/untracked x 18 server answers (209 440 states) and checks the proposal rule, success-only-on-offered, mismatch-raises, no/exactly-one initialized notification (and its position) and batching-tracks-version. TLC emits every (configuration, answer) pair; each is executed against the real send_initialize(_with_client_tracking) with a scripted responder under the virtual clock and the recorded trace is validated by TLC against the specification (strict, then observer), all clauses judged on the observed behaviour.",
+                note="Trusted: TLC, the virtual clock, the recording write stream. For malformed results, JSON-RPC errors and silence only failure and absence of the notification are required."),
+    "C04": dict(spec="Handshake", ref="DESIGN.md §4 C04",
+                text="The server rule of Handshake (echo a supported version, otherwise answer a supported one; session records the answer) and the client/server pairing are checked by TLC on the paired instance (every client list x preference). Real ProtocolHandler.handle_message is driven with every requested-version class - quick: supported versions, neighbours, malformed, non-strings, absent and 4 000 seeded calendar-shaped strings; thorough: all 2 000 000 strings dddd-dd-dd of a 200-year window - and TLC judges answer and recorded session version; the real client is paired with the real server for all 4 550 client configurations and the traces are validated against Handshake.",
+                note="Trusted: TLC; 'supported' is the tree's SUPPORTED_VERSIONS extracted on every run."),
     "C07": dict(spec="ErrorClass", ref="DESIGN.md §4 C07",
                 text="The error-code sets and helper list are extracted from the tree into TLA+ constants; TLC checks disjointness, partition of the named codes, equality with the documented sets and totality/agreement of the classification over all 1602 codes x helpers. Every code of both ranges plus seeded 64-bit codes is then sent as an error response (7 shapes) to real calls of every discovered request helper and to is_retryable_error, and TLC judges each observed outcome (class raised, code and message carried, False from the boolean helpers) against the specification. The ErrNeverNormal clause is also checked on RequestWait and on recorded send_message traces.",
                 note="Trusted: TLC; the documented sets are transcribed from the pinned errors.py; 64-bit codes are abstracted to one class; send_initialize* are judged only for 'no normal return' (they convert version errors by design)."),
